@@ -14,7 +14,7 @@ address const CA = address(address_v4(0x0a000001));
 address const PA = address(address_v4(0x0a000002));
 address const OA = address(address_v4(0x0a000003));
 
-enum { A_LITERAL, A_NAMED, A_UNRESOLVABLE, A_REFUSED, A_DEFAULT_PORT, A_RELATIVE, A_LITERAL_HDR, A_COLON_PATH, A_NAMED_PORT5, NREQKIND };
+enum { A_LITERAL, A_NAMED, A_UNRESOLVABLE, A_REFUSED, A_DEFAULT_PORT, A_RELATIVE, A_LITERAL_HDR, A_COLON_PATH, A_NAMED_PORT5, A_V6_PORT, A_V6_DEFAULT, NREQKIND };
 char const* const req_text[NREQKIND] = {
 	"GET http://10.0.0.3:8080/hello HTTP/1.1\r\n\r\n",
 	"PUT http://origin.test:8080/a/b?c=d HTTP/1.1\r\nHost: origin.test\r\n\r\n",
@@ -25,11 +25,13 @@ char const* const req_text[NREQKIND] = {
 	"GET http://10.0.0.3:8080/ HTTP/1.1\r\nX-A: 1\r\nHost: h\r\n\r\n",
 	"GET http://10.0.0.3:8080/clock/12:30?t=1:2 HTTP/1.1\r\n\r\n",
 	"GET http://origin.test:38080/p5 HTTP/1.1\r\n\r\n",
+	"GET http://[fd00::3]:8080/v6 HTTP/1.1\r\n\r\n",
+	"GET http://[fd00::3]/v6d HTTP/1.1\r\n\r\n",
 };
 // what the origin must receive (request line; headers are checked by content)
-char const* const origin_line[NREQKIND] = { "GET /hello HTTP/1.1\r\n", "PUT /a/b?c=d HTTP/1.1\r\n", "", "", "", "", "GET / HTTP/1.1\r\n", "GET /clock/12:30?t=1:2 HTTP/1.1\r\n", "GET /p5 HTTP/1.1\r\n" };
-char const* const origin_host[NREQKIND] = { "host: 10.0.0.3\r\n", "host: origin.test\r\n", "", "", "", "", "host: h\r\n", "host: 10.0.0.3\r\n", "host: origin.test\r\n" };
-bool forwardable(int k) { return k == A_LITERAL || k == A_NAMED || k == A_LITERAL_HDR || k == A_COLON_PATH || k == A_NAMED_PORT5; }
+char const* const origin_line[NREQKIND] = { "GET /hello HTTP/1.1\r\n", "PUT /a/b?c=d HTTP/1.1\r\n", "", "", "", "", "GET / HTTP/1.1\r\n", "GET /clock/12:30?t=1:2 HTTP/1.1\r\n", "GET /p5 HTTP/1.1\r\n", "GET /v6 HTTP/1.1\r\n", "GET /v6d HTTP/1.1\r\n" };
+char const* const origin_host[NREQKIND] = { "host: 10.0.0.3\r\n", "host: origin.test\r\n", "", "", "", "", "host: h\r\n", "host: 10.0.0.3\r\n", "host: origin.test\r\n", "host: ", "host: " };
+bool forwardable(int k) { return k == A_LITERAL || k == A_NAMED || k == A_LITERAL_HDR || k == A_COLON_PATH || k == A_NAMED_PORT5 || k == A_V6_PORT; }
 
 struct client
 {
@@ -125,14 +127,21 @@ extern "C" int harness_main()
 #endif
 	simulation s(cfg);
 	cfg.net.append(std::make_shared<queue>(s.get_io_context(), 0, duration(1000000), 0, "net"));
-	asio::io_context cios(s, CA), pios(s, PA), oios(s, OA), tios(s);
+	// the proxy and the origin node also have an IPv6 address each
+	address const PA6 = address(address_v6::from_string("fd00::2")), OA6 = address(address_v6::from_string("fd00::3"));
+	std::vector<address> const pips = { PA, PA6 }, oips = { OA, OA6 };
+	asio::io_context cios(s, CA), pios(s, pips), oios(s, oips), tios(s);
 	error_code ec;
 	// ---- scenario: one request of any kind, or two pipelined requests to the same origin
 	int const scen = vp_choose(NREQKIND + 3);
 	http_proxy* proxy = new http_proxy(pios, 4444);
 	origin o; tcp::acceptor oacc(oios); tcp::socket osock(oios);
 	o.acc = &oacc; o.sock = &osock;
-	oacc.open(tcp::v4(), ec); oacc.bind(tcp::endpoint(OA, (unsigned short)(scen == A_NAMED_PORT5 ? 38080 : 8080)), ec); oacc.listen(5, ec);
+	bool const v6scen = scen == A_V6_PORT || scen == A_V6_DEFAULT;
+	if (v6scen) { oacc.open(tcp::v6(), ec); oacc.bind(tcp::endpoint(OA6, 8080), ec); }
+	else { oacc.open(tcp::v4(), ec); oacc.bind(tcp::endpoint(OA, (unsigned short)(scen == A_NAMED_PORT5 ? 38080 : 8080)), ec); }
+	vp_assert(!ec, 3);
+	oacc.listen(5, ec);
 	origin_accept(o);
 
 	int kinds[2]; int nreq = 1;
@@ -190,13 +199,15 @@ extern "C" int harness_main()
 		vp_assert(c.in.compare(0, 12, "HTTP/1.1 503") == 0, 22);
 		vp_assert(c.eof, 23);
 		vp_assert(o.in.empty(), 24);
+		// a literal address (also a bracketed IPv6 one without a port) is dialled, not looked up as a name
+		if (kinds[0] != A_UNRESOLVABLE) vp_assert(cfg.lookups == 0, 25);
 	}
 	csock.close(ec);
 	s.run();
 	// ---- the next client is accepted
 	{
 		client d; tcp::socket dsock(cios); asio::high_resolution_timer dtimer(tios);
-		d.sock = &dsock; d.timer = &dtimer; int const nk = scen == A_NAMED_PORT5 ? A_NAMED_PORT5 : A_LITERAL; d.out = req_text[nk]; d.gaps.push_back(0);
+		d.sock = &dsock; d.timer = &dtimer; int const nk = (scen == A_NAMED_PORT5 || scen == A_V6_PORT) ? scen : (scen == A_V6_DEFAULT ? A_V6_PORT : A_LITERAL); d.out = req_text[nk]; d.gaps.push_back(0);
 		std::size_t const before = o.responses.size();
 		std::size_t const in_before = o.in.size(); int const answered_before = o.answered;
 		dsock.open(tcp::v4(), ec);
@@ -207,7 +218,14 @@ extern "C" int harness_main()
 		vp_assert(d.in.size() > 0, 32);
 		// the origin saw exactly this client's request, nothing left over from the previous client
 		vp_assert(o.answered == answered_before + 1, 33);
-		vp_assert(o.in.compare(in_before, std::string::npos, std::string(origin_line[nk]) + origin_host[nk] + "\r\n") == 0, 34);
+		if (v6scen)
+		{
+			// (the value of the added Host header - with or without brackets - is not prescribed)
+			std::string const pre = std::string(origin_line[nk]) + origin_host[nk];
+			vp_assert(o.in.compare(in_before, pre.size(), pre) == 0, 34);
+			vp_assert(o.in.size() >= in_before + pre.size() + 4 && o.in.compare(o.in.size() - 4, 4, "\r\n\r\n") == 0, 34);
+		}
+		else vp_assert(o.in.compare(in_before, std::string::npos, std::string(origin_line[nk]) + origin_host[nk] + "\r\n") == 0, 34);
 		dsock.close(ec);
 		s.run();
 	}
